@@ -44,6 +44,9 @@ class AddShapeH(Harness):
         for shape in ("plain", "nested-shared"):
             for sg in ((1, 1, 1), (1, -1, 1), (-1, 1, -1)):
                 out.append({"shape": shape, "signs": list(sg), "warm": True})
+        # a bare ITEM with symbolic (also non-boolean) bounds directly under the configurator, next to the rules
+        for sg in ((1, 1, 1), (-1, 1, 1), (1, 1, -1)):
+            out.append({"shape": "top-item", "signs": list(sg)})
         return out
 
     def setup(self, c, case):
@@ -57,6 +60,10 @@ class AddShapeH(Harness):
                 r1 = _rule(c, repo, "R1", [a, b], s1)
                 r2 = _rule(c, repo, "R2", [b, cc_], s2)
                 new = _rule(c, repo, "N", [cc_, d], s3)
+            elif case["shape"] == "top-item":
+                r1 = _leaf(c, repo, "n")                       # the item itself is a top-level proposition
+                r2 = _rule(c, repo, "R2", [a, b], s2)
+                new = _rule(c, repo, "N", [b, cc_], s3)
             else:
                 # the added rule S also sits inside R2 (identical definition: the very same object)
                 new = _rule(c, repo, "S", [cc_, d], s3)
@@ -98,7 +105,18 @@ class AddShapeH(Harness):
     def ensures(self, c, st, res):
         got, want = res["got"], res["want"]
         ids = lambda m: [str(x.id) for x in m.propositions]
-        out = [("add.children", ids(got) == ids(want) and all(x is y for x, y in zip(got.propositions, want.propositions))),
+        def same_child(x, y):
+            # structure, not object identity: the same class, and for an item the same bounds
+            if type(x) is not type(y):
+                return False
+            if hasattr(x, "propositions"):
+                return [str(k.id) for k in x.propositions] == [str(k.id) for k in y.propositions]
+            return band(x.bounds.lower == y.bounds.lower, x.bounds.upper == y.bounds.upper)
+        kids_ok = ids(got) == ids(want)
+        if kids_ok:
+            for x, y in zip(got.propositions, want.propositions):
+                kids_ok = band(kids_ok, same_child(x, y))
+        out = [("add.children", kids_ok),
                ("add.threshold-sign-id", band(got.value == want.value, got.sign == want.sign) if got.id == want.id == "cfg" else False),
                ("add.class", type(got) is type(want)),
                ("add.default_prios", dict(got.default_prios) == dict(want.default_prios)),
@@ -134,6 +152,8 @@ class AddShapeH(Harness):
         def build():
             if w["case"]["shape"] == "plain":
                 return R("R1", [L("a"), L("b")], s1), R("R2", [L("b"), L("c")], s2), R("N", [L("c"), L("d")], s3)
+            if w["case"]["shape"] == "top-item":
+                return L("n"), R("R2", [L("a"), L("b")], s2), R("N", [L("b"), L("c")], s3)
             new = R("S", [L("c"), L("d")], s3)
             return R("R1", [L("a"), L("b")], s1), R("R2", [L("b"), new], s2), new
         violated, detail = [], {}
@@ -152,7 +172,7 @@ class AddShapeH(Harness):
         want = cc.StingyConfigurator(q1, q2, qn, id="cfg")
         if cfg.to_text() != before:
             violated.append("add.frame")
-        if got.to_text() != want.to_text():
+        if got.to_text() != want.to_text() or got.to_json() != want.to_json():
             violated += ["add.children", "add.threshold-sign-id"]
             detail["got"], detail["want"] = got.to_text(), want.to_text()
         if type(got) is not type(want):
@@ -165,6 +185,7 @@ class AddShapeH(Harness):
         try:
             pg_, pw = got.ge_polyhedron, want.ge_polyhedron
             same = np.array_equal(np.asarray(pg_), np.asarray(pw)) and [v.id for v in pg_.variables] == [v.id for v in pw.variables] \
+                and [tuple(v.bounds.as_tuple()) for v in pg_.variables] == [tuple(v.bounds.as_tuple()) for v in pw.variables] \
                 and list(map(float, pg_.default_prio_vector)) == list(map(float, pw.default_prio_vector))
         except BaseException as e:
             same, detail["polyhedron_error"] = True, repr(e)[:200]
